@@ -506,6 +506,7 @@ func NewConfig(configFile string) (*Config, error) { // nolint: gocyclo
 
 	// Return default config if config file is not given.
 	if configFile == "" {
+		applyTelemetryEnv(config)
 		return config, nil
 	}
 
@@ -634,6 +635,7 @@ func NewConfig(configFile string) (*Config, error) { // nolint: gocyclo
 		return nil, err
 	}
 	parseTelemetryConfig(config, v)
+	applyTelemetryEnv(config)
 
 	// If SegmentMaxAge is not set, default it to the retention time.
 	if config.Streams.SegmentMaxAge == 0 {
@@ -877,6 +879,23 @@ func parseGroupsConfig(config *Config, v *viper.Viper) error { // nolint: gocycl
 
 // parseTelemetryConfig parses the `telemetry` section of a config file and
 // populates the given Config.
+// telemetryEnabledEnv is the environment variable that switches telemetry on
+// or off.
+const telemetryEnabledEnv = "LIFTBRIDGE_TELEMETRY_ENABLED"
+
+// applyTelemetryEnv applies the telemetry opt-out (or opt-in) given in the
+// environment. It takes precedence over the configuration file and also works
+// when there is none.
+func applyTelemetryEnv(config *Config) {
+	value, ok := os.LookupEnv(telemetryEnabledEnv)
+	if !ok {
+		return
+	}
+	if enabled, err := strconv.ParseBool(value); err == nil {
+		config.Telemetry.Enabled = enabled
+	}
+}
+
 func parseTelemetryConfig(config *Config, v *viper.Viper) {
 	if v.IsSet(configTelemetryEnabled) {
 		config.Telemetry.Enabled = v.GetBool(configTelemetryEnabled)
